@@ -392,6 +392,7 @@ func translateTopics(p *pkgInfo, topicsIn []topic, withMisc bool, prefix string,
 				}
 			}
 			var hs []fnKey
+			c.helperPhase5 = part5Topics[topics[i].name] // code_cblift.go: `if` on a constant
 			for _, k := range topics[i].fns {
 				c.helperCallees(k, known, &hs)
 			}
@@ -834,10 +835,31 @@ func (c *codegen) helperCallees(k fnKey, known map[fnKey]bool, out *[]fnKey) {
 		c.helperCallees(h, known, out)
 	}
 	ast.Inspect(fd.Body, func(n ast.Node) bool {
+		if is, isIf := n.(*ast.IfStmt); isIf && c.helperPhase5 {
+			// code_cblift.go: the branch of an `if` on a boolean constant that is not taken is not translated
+			if taken, isConst := c.constCond0(is, func(nm string) bool { return declCounts(fd)[nm] > 0 }); isConst {
+				for _, s := range taken {
+					ast.Inspect(s, func(m ast.Node) bool {
+						if cx, isCall := m.(*ast.CallExpr); isCall {
+							c.helperCall(k, fd, recvVar, cx, add)
+						}
+						return true
+					})
+				}
+				return false
+			}
+		}
 		call, ok := n.(*ast.CallExpr)
 		if !ok {
 			return true
 		}
+		c.helperCall(k, fd, recvVar, call, add)
+		return true
+	})
+}
+
+func (c *codegen) helperCall(k fnKey, fd *ast.FuncDecl, recvVar string, call *ast.CallExpr, add func(fnKey)) {
+	{
 		switch f := call.Fun.(type) {
 		case *ast.SelectorExpr:
 			if id, ok := f.X.(*ast.Ident); ok && recvVar != "" && id.Name == recvVar && unexported(f.Sel.Name) {
@@ -881,8 +903,7 @@ func (c *codegen) helperCallees(k fnKey, known map[fnKey]bool, out *[]fnKey) {
 			}
 			add(h)
 		}
-		return true
-	})
+	}
 }
 
 // reachableStructs: the struct types reachable from the receiver and parameter types of fd through
